@@ -110,6 +110,13 @@ def issueJson (i : Issue) : Json :=
 def resultJson (env : Env) (s : Schema) : List (String × Json) :=
   [("on", jarr ((check env s true).map issueJson)), ("off", jarr ((check env s false).map issueJson))]
 
+/-- for seeded schemas the warnings-off list is the error-severity subset of the warnings-on list
+(`HedVerif.C14.errors_only` proves `check env s false` equal to it for every schema); `check … false` itself is
+run on the released schemas -/
+def seededJson (env : Env) (s : Schema) : List (String × Json) :=
+  let on := check env s true
+  [("on", jarr (on.map issueJson)), ("off", jarr ((on.filter (·.sev ≤ sevError)).map issueJson))]
+
 /-- `c14.run`: one schema, its environment, and a list of faults to seed; self-contained -/
 def handle (op : String) (j : Json) : Option (Except String Json) :=
   match op with
@@ -122,7 +129,7 @@ def handle (op : String) (j : Json) : Option (Except String Json) :=
       ("counts", jarr (secOrder.map fun t => jarr [jnat (s.sec t).length, jnat (visible s t).length])),
       ("base", jobj (resultJson env s)),
       ("seeds", jarr (seeds.map fun f =>
-        jobj (("adm", jbool (admissible env f s)) :: ("kind", Json.str (reprStr f.kind)) :: resultJson env (seed f s))))])
+        jobj (("adm", jbool (admissible env f s)) :: ("kind", Json.str (reprStr f.kind)) :: seededJson env (seed f s))))])
   | _ => none
 
 end HedVerif.Driver.C14
